@@ -87,7 +87,7 @@ class Build:
 def run(tier, seed):
     n = 36 if tier == "quick" else 500
     progs = common.gen_programs(n, seed, vars=4, impure_functions=1.5, assign_after_newline=2.0, hostvar=1)
-    return runner.run_relational(
+    nviol = runner.run_relational(
         "C11", progs, Build(tier, seed), tier, seed, "model_checking",
         rule="generated programs with assignments before/between/after line ends, in impure functions, tunnels and "
              "choice bodies x explored path x 1-3 observer objects registered, removed (one variable / all) and "
@@ -96,3 +96,7 @@ def run(tier, seed):
         ex_kw=dict(depth=3 if tier == "quick" else 5, max_paths=8 if tier == "quick" else 40),
         case_kw=dict(cmpcb=False, chk11=True),
         assumptions=["a continue that returns Err is not required to notify (the statement speaks of completed continues)"])
+    # the same property against the executable model of the host interface (absolute oracle, Tier-S programs)
+    import hostmodel
+    nviol += hostmodel.check("C11", "observe", tier, seed)
+    return nviol
